@@ -166,6 +166,13 @@ func plans(id, tier string) (Plan, bool) {
 				jobs = append(jobs, Job{Pkg: pkgSC, Harness: "c14_sched", Instr: "v1", Params: fmt.Sprintf("scenario=%d;policy=preemption;budget=1;split=10", sc), Shards: 16})
 			}
 			jobs = append(jobs, Job{Pkg: pkgSC, Harness: "c14_sched", Instr: "v1", Params: "scenario=0;policy=delay;budget=2;accessyields=yes", Shards: 8})
+			// deeper preemption bounds where the scenario is small enough
+			for _, sc := range []int{3, 7} {
+				jobs = append(jobs, Job{Pkg: pkgSC, Harness: "c14_sched", Instr: "v1", Params: fmt.Sprintf("scenario=%d;policy=preemption;budget=3;split=10", sc), Shards: 16})
+			}
+			for _, sc := range []int{1, 2, 9, 10} {
+				jobs = append(jobs, Job{Pkg: pkgSC, Harness: "c14_sched", Instr: "v1", Params: fmt.Sprintf("scenario=%d;policy=preemption;budget=2;split=10", sc), Shards: 16})
+			}
 		}
 		jobs = append(jobs, Job{Pkg: pkgSC, Harness: "c14_race", Race: true, MaxProcs: 16})
 		jobs = append(jobs, Job{Pkg: pkgExtV1, Harness: "c14_license_sched", Instr: "v1", Shards: pick(4, 16)})
